@@ -569,6 +569,11 @@ def x6_for_ghost_iter(text, log):
     def f(m):
         log.add("X9:for-ghost-iterator-name")
         return "%sfor %s in it: %s" % (m.group(1), m.group(2), m.group(3))
+    def amp(m):
+        # `for x in &v` is `for x in v.iter()` (std: `impl IntoIterator for &Vec<T>` / `&[T]` calls iter())
+        log.add("X9:for-x-in-&v->v.iter()")
+        return "%s%sfor %s in %s.iter() " % (m.group(1), m.group(2), m.group(3), m.group(4))
+    text = re.sub(r"(^|\n)(\s*)for ([a-z_][a-z0-9_]*|\([a-z_, ]*\)) in &([a-z_][a-z0-9_.]*) (?=\{)", amp, text)
     return re.sub(r"(^|\n)(\s*)for ([a-z_][a-z0-9_]*|\([a-z_, ]*\)) in ([a-z_0-9][a-z0-9_.()&]*) (?=\{)", lambda m: "%s%sfor %s in it: %s " % (m.group(1), m.group(2), m.group(3), m.group(4)) if not log.add("X9:for-ghost-iterator-name") else "", text)
 
 
@@ -1069,6 +1074,11 @@ class Extractor:
 
     def emit_block(self, block):
         for (raw, tl) in block:
+            # `$strset`: the local the function declares with `HashSet::<&str>::new()` (whatever its name)
+            if "$strset" in raw:
+                if not getattr(self, "_strset_name", None):
+                    raise AnchorLost("a proof hint mentions $strset but the function declares no HashSet<&str> local")
+                raw = raw.replace("$strset", self._strset_name)
             self.emit(raw + "\n", self.tpath, tl)
 
     def locate(self, rel, selector):
@@ -1112,6 +1122,12 @@ class Extractor:
                 text = OPTS[o](text, log)
             elif o not in ("x8drop", "x4impl", "keepdefault"):
                 raise SystemExit("unknown opt " + o)
+        if "x7s" not in opts and "fn " in text:
+            # X13 for every function: a closure without a contract has an UNKNOWN result in Verus, and a
+            # proof that fails for that reason would look like a violation.  With the contract "result ==
+            # own body" the closure is either understood or (exec calls in spec position, a non-bool
+            # result) rejected outright, which is reported as UNDECIDED.
+            text = x13_closure_contracts(text, log)
         return text
 
     def do_use(self, use):
@@ -1183,6 +1199,8 @@ class Extractor:
         self.hashes[ident] = hashlib.sha256(orig.encode()).hexdigest()
         text = self.apply_rewrites(orig, fs.opts, ident)
         masked = mask_source(text)
+        mset = re.search(r"let mut ([a-z_][a-z0-9_]*) = vx_strset_new\(\);", text)
+        self._strset_name = mset.group(1) if mset else None
         line0 = src.count("\n", 0, start) + 1
         kw = re.search(r"\bfn\b", masked).start()
         b = find_body_open(masked, kw)
